@@ -1,0 +1,20 @@
+//go:build verif
+
+package pathvar
+
+// Contracts for the deductive verifier in /verif (govc). Comment-only file: adds no code.
+
+// WithVars / Vars: the bindings the router found are handed to the handler AS THEY ARE - each ':name' bound to the
+// corresponding path segment (the router matches the already decoded path; decoding a value again would turn the
+// segment "100%41" into "100A").
+//@ func WithVars
+//@   prop C03
+//@   requires r != nil
+//@   ensures [bindings-stored-as-given] calls(context.WithValue) == 1 && arg(context.WithValue, 0) == ret(r.Context) && typeis(arg(context.WithValue, 2), map[string]string) && unbox(arg(context.WithValue, 2), map[string]string) == params && calls(r.WithContext, ret(context.WithValue)) == 1 && result == ret(r.WithContext)
+//@   ensures [under-the-package-key] arg(context.WithValue, 1) == pathVars
+//@   modifies nothing
+//@ func Vars
+//@   prop C03
+//@   requires r != nil
+//@   ensures [read-under-the-same-key] calls(Value) == 1 && arg(Value, 0) == pathVars
+//@   ensures [the-stored-bindings-or-nothing] (typeis(ret(Value), map[string]string) ==> result == unbox(ret(Value), map[string]string)) && (!typeis(ret(Value), map[string]string) ==> result == nil)
